@@ -419,6 +419,42 @@ fn check_kind_table(rep: &mut Report) {
     }
 }
 
+/// The documented spelling of every fixed-text token kind and one text per pattern-defined class
+/// (the same table as Lean's `CapyV.C22Doc.documented` / `documented_classes`): each text, lexed
+/// alone, must be exactly one token of that kind. Independent of the rule table that the model is
+/// regenerated from, so a corrupted rule (seeded change C22_2: the non-breaking space rule became a
+/// 77-character literal) is a failing input and not only a broken obligation.
+const DOCUMENTED: &[(&str, &str)] = &[
+    ("As", "as"), ("If", "if"), ("Else", "else"), ("While", "while"), ("Loop", "loop"), ("Switch", "switch"),
+    ("In", "in"), ("Distinct", "distinct"), ("Mut", "mut"), ("Extern", "extern"), ("Struct", "struct"),
+    ("Enum", "enum"), ("Comptime", "comptime"), ("Return", "return"), ("Break", "break"),
+    ("Continue", "continue"), ("Defer", "defer"), ("Try", "try"), ("Catch", "catch"), ("Plus", "+"),
+    ("Hyphen", "-"), ("Asterisk", "*"), ("Slash", "/"), ("Percent", "%"), ("Left", "<"), ("DoubleLeft", "<<"),
+    ("LeftEquals", "<="), ("Right", ">"), ("DoubleRight", ">>"), ("RightEquals", ">="), ("Bang", "!"),
+    ("BangEquals", "!="), ("And", "&"), ("DoubleAnd", "&&"), ("Pipe", "|"), ("DoublePipe", "||"),
+    ("Equals", "="), ("DoubleEquals", "=="), ("Tilde", "~"), ("Comma", ","), ("Dot", "."), ("Ellipsis", "..."),
+    ("Question", "?"), ("Arrow", "->"), ("FatArrow", "=>"), ("Caret", "^"), ("Backtick", "`"), ("LParen", "("),
+    ("RParen", ")"), ("LBrack", "["), ("RBrack", "]"), ("LBrace", "{"), ("RBrace", "}"), ("Colon", ":"),
+    ("Semicolon", ";"), ("Hash", "#"),
+    // pattern-defined classes
+    ("NonBreakingSpace", "\u{a0}"), ("Whitespace", " \t\n"), ("Ident", "x_1"), ("Int", "1_0"), ("Hex", "0xFf"),
+    ("Bin", "0b10"), ("Float", "1.5"), ("Bool", "true"), ("Bool", "false"), ("Error", "@"),
+];
+
+fn check_documented(rep: &mut Report) {
+    for (kind, text) in DOCUMENTED {
+        rep.case(Some(format!("documented|{kind}")));
+        rep.hit("documented-spelling");
+        let got = match impl_lex(text) {
+            Ok(o) => o.kinds.join(","),
+            Err(p) => format!("PANIC {p}"),
+        };
+        if got != *kind {
+            rep.oracle_fail("documented-spelling", input_json(text), json!(got), json!(kind), "the documented text of a token kind, lexed alone, is not one token of that kind");
+        }
+    }
+}
+
 pub fn run(tier: &str, seed: u64, widen: bool) -> Report {
     let max_len = if tier == "thorough" || widen { 4 } else { 3 };
     let mut rep = Report::new(
@@ -427,6 +463,7 @@ pub fn run(tier: &str, seed: u64, widen: bool) -> Report {
         &format!("all strings of <= {max_len} symbols over the 24-symbol alphabet {{a s e x b 0 1 _ ' \" \\ / . - + > = < ! & | SP LF é}} (exhaustive), all strings of <= 2 symbols over ASCII + 28 non-ASCII scalar values (exhaustive), seeded random Unicode strings and mutations of the .capy/.test corpus of /repo up to 64 KiB; non-trivial = the implementation produced tokens of >= 2 distinct kinds; distinct by text"),
     );
     check_kind_table(&mut rep);
+    check_documented(&mut rep);
     let mut texts = vec![];
     let alpha: Vec<String> = ALPHABET.iter().map(|s| s.to_string()).collect();
     enumerate(&alpha, max_len, &mut texts);
